@@ -262,7 +262,7 @@ PROPS = {
                      "hdfimport: 1-4 input files per run in every order, ranks 2 and 3, dimensions 2..6; TEXT (-t FP32/FP64/INT32/INT16/INT8, -n, no option), FP32 / FP64 (with and without -n) / IN32 / IN16 / IN08 binary and HDF (one FLOAT32 SDS with float32 scales) input; -f, -r with -e / -i / -p / -m in every order; images only for inputs that give FLOAT32 (other types: known finding hdfimport-raster-needs-float32), with strictly increasing scales and the data inside the header range; file names below 32 characters except in the runs that probe the name fields (known finding hdfimport-file-name-buffer); pixel values are compared with the formula only where no expansion takes place, otherwise with the images of the same file imported alone"],
     ),
     "C05": dict(
-        lean_props=["H4.Props.C05", "H4.Props.C05Bits", "H4.Props.C05NBit", "H4.Props.C05Skp", "H4.Props.C05Fn", "H4.Props.C05SkpFn", "H4.Props.C05Rle", "H4.Props.C05RleSess", "H4.Props.C05NBitFn", "H4.Props.C02HdrFn"],
+        lean_props=["H4.Props.C05", "H4.Props.C05Bits", "H4.Props.C05NBit", "H4.Props.C05Skp", "H4.Props.C05Fn", "H4.Props.C05SkpFn", "H4.Props.C05Rle", "H4.Props.C05RleSess", "H4.Props.C05NBitFn", "H4.Props.C02HdrFn", "H4.Props.C05BitsFn"],
         engines=[
             E("rec", "e_rec.c", model="rec", quick=dict(cases=600, chunk=60), thorough=dict(cases=12000, seeds=4, chunk=400)),
             E("bits", "e_bits.c", model="bits", quick=dict(cases=2500, args=[700]), thorough=dict(cases=30000, seeds=8, args=[3000], chunk=200)),
